@@ -75,6 +75,20 @@ def violation(key, what, case):
     return {'key': key, 'what': what, 'case': case}
 
 
+def raised_inside_library(tb):
+    """(file, function, line) of the innermost frame if the exception was raised by code of the tree under test."""
+    last = None
+    while tb is not None:
+        last = tb
+        tb = tb.tb_next
+    if last is None:
+        return None
+    fn = os.path.realpath(last.tb_frame.f_code.co_filename)
+    if fn.startswith(os.path.realpath(REPO) + os.sep):
+        return os.path.relpath(fn, os.path.realpath(REPO)), last.tb_frame.f_code.co_name, last.tb_lineno
+    return None
+
+
 def _worker(args):
     modname, idx, unit, tier = args
     try:
@@ -83,7 +97,20 @@ def _worker(args):
         res = mod.run_unit(unit, tier)
         res['wall'] = time.time() - t0
         return idx, res, None
-    except Exception:
+    except Exception as e:
+        where = raised_inside_library(sys.exc_info()[2])
+        if where is not None:
+            # the library raised where the harness (which runs clean on the unchanged tree) does not expect an exception:
+            # that is an observation about the code under test, not a harness fault
+            res = new_result()
+            res['evaluations'] = 1
+            res['digest'] = 'crashed'
+            res['violations'].append(violation(
+                'unexpected-exception:%s:%s' % (type(e).__name__, where[1]),
+                'library raised %s: %s in %s:%d (%s) while the harness was exploring this unit' % (
+                    type(e).__name__, str(e)[:120], where[0], where[2], where[1]),
+                {'harness_unit': unit, 'tier': tier}))
+            return idx, res, None
         return idx, None, 'unit %r\n%s' % (unit, traceback.format_exc())
 
 
@@ -236,7 +263,15 @@ def run_replay(path):
     with open(path) as f:
         rec = json.load(f)
     mod = __import__('props.' + rec['module'], fromlist=['x'])
-    viols = mod.replay(rec['case'])
+    if isinstance(rec['case'], dict) and 'harness_unit' in rec['case']:
+        # the stored case is a whole work unit during which the library raised unexpectedly
+        idx, res, err = _worker((rec['module'], 0, rec['case']['harness_unit'], rec['case'].get('tier', 'quick')))
+        if err is not None:
+            print('INTERNAL: %s' % err)
+            return 2
+        viols = res['violations']
+    else:
+        viols = mod.replay(rec['case'])
     if viols:
         for v in viols:
             print('VIOLATION property=%s replay=%s' % (rec['property'], path))
